@@ -25,7 +25,7 @@ def load_checks():
 CHECKS = load_checks()
 
 # checks that have been validated on the unchanged tree (several seeds) and are claimed in MANIFEST.json
-READY = {'C01', 'C02', 'C04', 'C05', 'C06', 'C07', 'C08', 'C09', 'C10', 'C11', 'C12', 'C13', 'C14', 'C15', 'C16', 'C17', 'C18', 'C20'}
+READY = {'C01', 'C02', 'C03', 'C19', 'C04', 'C05', 'C06', 'C07', 'C08', 'C09', 'C10', 'C11', 'C12', 'C13', 'C14', 'C15', 'C16', 'C17', 'C18', 'C20'}
 
 NOT_YET = 'check not built yet (work in progress; DESIGN.md section 7 gives the plan)'
 
